@@ -3,6 +3,7 @@ import warnings
 from collections.abc import Iterable
 
 from .vector import Vector
+from .alias_tracker import _ALIAS_TRACKER
 
 from .naming import _sanitize_user_name
 
@@ -226,6 +227,12 @@ class Table(Vector):
 		# Set _dtype to None explicitly since Table bypasses Vector.__new__
 		self._dtype = None
 		self._column_map = None
+		
+		# Vector.__new__ may hand back an already initialised Table (Vector([v, w])),
+		# in which case Python runs __init__ a second time: forget the registration
+		# of the column tuple that is about to be replaced
+		if self._underlying is not None:
+			_ALIAS_TRACKER.unregister(self, id(self._underlying))
 		
 		# Call parent constructor
 		super().__init__(initial, dtype=dtype, name=name)
@@ -456,7 +463,7 @@ class Table(Vector):
 				cols = list(self._underlying)
 				value._name = self._underlying[col_idx_indexed]._name  # Preserve original name
 				cols[col_idx_indexed] = value
-				object.__setattr__(self, '_underlying', tuple(cols))
+				self._swap_columns(cols)
 				object.__setattr__(self, '_column_map', self._build_column_map())
 				return
 			
@@ -481,7 +488,7 @@ class Table(Vector):
 				cols = list(self._underlying)
 				value._name = self._underlying[col_idx]._name  # Preserve original name
 				cols[col_idx] = value
-				object.__setattr__(self, '_underlying', tuple(cols))
+				self._swap_columns(cols)
 				
 				# Rebuild column map to reflect any structural changes
 				object.__setattr__(self, '_column_map', self._build_column_map())
@@ -492,6 +499,13 @@ class Table(Vector):
 			f"Cannot set attribute '{attr}' on Table. "
 			f"Column '{attr}' does not exist. Use >>= to add new columns."
 		)
+
+	def _swap_columns(self, cols):
+		"""Replace the column tuple and keep the alias tracker in step with it."""
+		old_id = id(self._underlying)
+		object.__setattr__(self, '_underlying', tuple(cols))
+		_ALIAS_TRACKER.unregister(self, old_id)
+		_ALIAS_TRACKER.register(self, id(self._underlying))
 
 	def rename_column(self, old_name, new_name):
 		"""Rename a column (modifies in place, returns self for chaining)"""
